@@ -528,8 +528,9 @@ def check_property(prop, tier, seed, replay_path=None, only=None, keep=False, ve
                 continue
             if tag == 'main':
                 ev['queries_fail'] += 1; ph['fail'] += 1
-            tr = run_case(h, built_units[h.unit.name], work, params, modes, tag + 'trace', trace=True, no_witness=True,
-                          only_property=(hard[0][0] if params.get('_backend') else None))
+            # (with --property the build keeps its WITNESS assertions: removing them would renumber the assertions)
+            onlyp = hard[0][0] if params.get('_backend') else None
+            tr = run_case(h, built_units[h.unit.name], work, params, modes, tag + 'trace', trace=True, no_witness=not onlyp, only_property=onlyp)
             inputs = extract_inputs(tr.get('out') or '')
             what = violated_property(tr.get('out') or '') or '; '.join(f[2] for f in hard[:3])
             rp = write_replay(prop.id, h, params, modes, inputs, what)
